@@ -365,6 +365,51 @@ type tableCellXML struct {
 	Paragraphs           []paragraphXML `xml:"p"`
 }
 
+// UnmarshalXML decodes a cell, taking its paragraphs also from the sections
+// (<text:section>, possibly nested) the cell content may be wrapped in.
+func (c *tableCellXML) UnmarshalXML(d *xml.Decoder, start xml.StartElement) error {
+	c.XMLName = start.Name
+	for _, a := range start.Attr {
+		switch a.Name.Local {
+		case "style-name":
+			c.StyleName = a.Value
+		case "number-columns-spanned":
+			c.NumberColumnsSpanned = a.Value
+		case "number-rows-spanned":
+			c.NumberRowsSpanned = a.Value
+		}
+	}
+	var walk func() error
+	walk = func() error {
+		for {
+			tok, err := d.Token()
+			if err != nil {
+				return err
+			}
+			switch t := tok.(type) {
+			case xml.StartElement:
+				switch t.Name.Local {
+				case "p", "h":
+					var p paragraphXML
+					if err = d.DecodeElement(&p, &t); err == nil {
+						c.Paragraphs = append(c.Paragraphs, p)
+					}
+				case "section":
+					err = walk()
+				default:
+					err = d.Skip()
+				}
+				if err != nil {
+					return err
+				}
+			case xml.EndElement:
+				return nil
+			}
+		}
+	}
+	return walk()
+}
+
 // coveredCellXML represents a covered (merged) cell (<table:covered-table-cell>).
 type coveredCellXML struct {
 	XMLName xml.Name `xml:"covered-table-cell"`
